@@ -1,4 +1,5 @@
 import Spec.Txn
+import Model.Online.Run
 /-!
 # C18 — offline scripts frame transactions correctly
 
@@ -338,5 +339,66 @@ example : framingOk ⟨true, true, false⟩ [⟨[.plain 1], 1, false⟩]
 example : framingOk ⟨true, true, false⟩ [⟨[], 1, false⟩, ⟨[], 1, false⟩]
     [.begin, .running 0, .version 0, .running 1, .version 1, .commit] = false := by decide
 example : framingOk ⟨false, true, true⟩ [⟨[], 1, false⟩] [.begin, .running 0, .version 0, .commit] = false := by decide
+
+
+/-! ### several `configure()` calls in one env.py run (the multidb template) -/
+open Model.Online (ConfigureArgs CtxOpts configureCall configureAll effective)
+
+/-- the configuration of the context the last of several `configure()` calls of one env.py run makes
+    (`EnvironmentContext.context_opts` is shared between the calls), for a dialect whose own
+    `transactional_ddl` is `dflt` -/
+def lastCfg (dflt : Bool) (calls : List ConfigureArgs) (a : ConfigureArgs) : Cfg :=
+  let e := effective dflt (configureAll {} (calls ++ [a]))
+  { tddl := e.1, perMig := e.2 }
+
+/-- **multidb, every call**: whatever was configured before, the script of each call satisfies
+    the framing specification *for the setting that call ended up with* -/
+theorem multidb_framed (dflt : Bool) (calls : List ConfigureArgs) (a : ConfigureArgs) (migs : List Mig) (dropVT : Bool) :
+    framingOk (lastCfg dflt calls a) migs (runToks (lastCfg dflt calls a) migs dropVT) = true :=
+  framingOk_run _ migs dropVT
+
+theorem configureAll_none (o : CtxOpts) : ∀ (calls : List ConfigureArgs), (∀ c ∈ calls, c.tddl = none) →
+    (configureAll o calls).tddl = o.tddl := by
+  intro calls
+  induction calls generalizing o with
+  | nil => intro _; rfl
+  | cons c rest ih =>
+    intro h
+    have hc := h c List.mem_cons_self
+    simp only [configureAll, List.foldl_cons]
+    have := ih (configureCall o c) (fun x hx => h x (List.mem_cons_of_mem _ hx))
+    simp only [configureAll] at this
+    rw [this]
+    simp [configureCall, hc]
+
+/-- **a call that passes `transactional_ddl=` is framed by what it passed** -/
+theorem multidb_own_override (dflt : Bool) (calls : List ConfigureArgs) (a : ConfigureArgs) (b : Bool)
+    (h : a.tddl = some b) : (lastCfg dflt calls a).tddl = b := by
+  simp [lastCfg, effective, configureAll, configureCall, h]
+
+/-- **when no call of the run passes `transactional_ddl=`, every script is framed by its own
+    dialect's default** — nothing else is carried from one call to the next (what a change that
+    writes a resolved default back into the shared options breaks) -/
+theorem multidb_default (dflt : Bool) (calls : List ConfigureArgs) (a : ConfigureArgs)
+    (h : ∀ c ∈ calls ++ [a], c.tddl = none) : (lastCfg dflt calls a).tddl = dflt := by
+  have := configureAll_none {} (calls ++ [a]) h
+  simp [lastCfg, effective, this]
+
+/-- the full statement "every call is framed by its own override or its dialect's default" … -/
+def multidb_own_statement : Prop :=
+  ∀ (dflt : Bool) (calls : List ConfigureArgs) (a : ConfigureArgs), (lastCfg dflt calls a).tddl = a.tddl.getD dflt
+
+/-- … is FALSE on the unchanged tree (known finding C18-F1 = C04-F1): an explicit override of an
+    earlier call frames the script of a later call that passes none -/
+theorem multidb_own_counterexample : ¬ multidb_own_statement := by
+  intro h
+  have := h false [{ tddl := some true, perMig := false }] { tddl := none, perMig := false }
+  revert this
+  decide
+
+/-- and the script shows it: a MySQL-like dialect (no transactional DDL) configured with defaults
+    after `configure(transactional_ddl=True)` gets BEGIN/COMMIT markers -/
+example : (runToks (lastCfg false [{ tddl := some true, perMig := false }] { tddl := none, perMig := false })
+    [{ segs := [], nver := 1, createVT := true }] false).contains Tok.begin = true := by decide
 
 end C18
